@@ -32,13 +32,14 @@ def _strategy():
                 tx["raw"] = draw(st.booleans())
             txs.append(tx)
         return {"size": size, "count": count, "seed_key": seed_key,
-                "seeds": draw(st.lists(st.one_of(st.sampled_from([1, 0x00FF, 0xFF00, 0xFFFE, 0x8000]), st.integers(1, 0xFFFE)), min_size=1, max_size=3)),
+                "seeds": draw(st.lists(st.one_of(st.sampled_from([0x0000, 0xFFFF, 1, 0x00FF, 0xFF00, 0xFFFE, 0x8000]), st.integers(0, 0xFFFF)), min_size=1, max_size=3)),
                 "addr": draw(st.one_of(st.sampled_from([0, 1, 0x92000003, 0xFFFFFFFF, 0x80000000]), st.integers(0, 0xFFFFFFFF))),
                 "direct": draw(st.integers(0, 1)),
                 "max_cmdt": [draw(st.sampled_from([1, 2, 255])), draw(st.sampled_from([1, 2, 255]))],
                 "lat": {"C": draw(st.lists(st.sampled_from(simbus.LATENCY_GRID[1:]), min_size=1, max_size=2)),
                         "S": draw(st.lists(st.sampled_from(simbus.LATENCY_GRID[1:]), min_size=1, max_size=2))},
                 "use_proceed": True,
+                "sas": draw(st.sampled_from([[0xF9, 0xD4, 0xA7], [0xF9, 0xD4, 0xA7], [0x00, 0xD4, 0xA7], [0x01, 0x00, 0xFD], [0xFD, 0x80, 0x00], [0x7F, 0xFD, 0x01]])),
                 "respond_delay": draw(st.sampled_from([0.0, 0.0, 0.001, 0.02])),
                 "txs": txs}
     return build()
@@ -51,14 +52,14 @@ class C17:
                  "application threads under the virtual-time kernel, oracle = reference memory model")
     RULE = ("Hypothesis draws object size 1/2/4/8 and a byte length 1..255 (boundaries 1,6,7,8,9,255: single-frame DM16 up to 7 "
             "bytes, RTS/CTS above), a 32-bit pointer, direct/spatial addressing, seed/key off or on with 1-3 generated seeds "
-            "(1..0xFFFE) and a generated bijective key algorithm, max_cmdt_packets per side, latencies in (0, 5 ms], optional "
+            "(0..0xFFFF incl. both boundaries) and a generated bijective key algorithm, max_cmdt_packets per side, latencies in (0, 5 ms], optional "
             "proceed callback, respond delay 0..20 ms, and 1..4 transactions back to back on the same objects (reads raw/converted, "
             "signed/unsigned; writes with values over the full unsigned range incl. all-ones/all-zero objects); non-trivial = "
             ">= 2 objects or >= 8 data bytes or >= 2 transactions; distinct = distinct parameter sets")
     ASSUMPTIONS = [
         "the serving application answers from an application thread after the notify callback (the pattern of the pinned tests) "
         "and supplies exactly object_count x object_size bytes",
-        "seeds 0x0000 and 0xFFFF are not generated (0xFFFF means 'no key required' on the wire)",
+        "seeds take any 16-bit value incl. 0x0000 and 0xFFFF (set through set_seed_generator)",
         "the caller's max_timeout is 3 s (long enough for 255 bytes at window 1 and 5 ms latency)",
     ]
     shrink_lists = ("txs",)
@@ -92,7 +93,8 @@ class C17:
 
         size, count = p["size"], p["count"]
         nbytes = size * count
-        dw = D.Dm14World(p)
+        sas = p.get("sas", [D.SA_C, D.SA_S, D.SA_I])
+        dw = D.Dm14World(dict(p, sa_c=sas[0], sa_s=sas[1], sa_i=sas[2]))
         try:
             txs = []
             plans = []
@@ -164,7 +166,7 @@ class C17:
             else:
                 for ti, ((t, a), tx) in enumerate(zip(proceeds, p["txs"])):
                     want_cmd = 1 if tx["op"] == "read" else 2
-                    if (a["command"], a["address"], a["pointer_type"], a["object_count"], a["sa"]) != (want_cmd, p["addr"], p["direct"], count, D.SA_C):
+                    if (a["command"], a["address"], a["pointer_type"], a["object_count"], a["sa"]) != (want_cmd, p["addr"], p["direct"], count, sas[0]):
                         V("proceed-args", "transaction %d: proceed callback saw command=%r address=0x%X pointer_type=%r object_count=%r sa=%r; "
                           "client asked command=%d address=0x%X pointer_type=%d object_count=%d" %
                           (ti, a["command"], a["address"], a["pointer_type"], a["object_count"], a["sa"], want_cmd, p["addr"], p["direct"], count), mode)
